@@ -258,6 +258,15 @@ func (h *c17Hist) judgeOne(cmd *c17Cmd, result string, pre, post c17State, scope
 		// sub-step – that task may still be aborted before its promote.
 		if cmd.Kind == c17KPromote || c17IsLTKind(preT.Kind) {
 			h.cutoverDone[cmd.Task] = kind
+		} else {
+			// Embedded commit: the window until its clear-fence step completes
+			// is post-cutover too (the leader already moved, the fence is held).
+			h.embeddedWindow[cmd.Task] = true
+			if !h.sawEmbeddedWindow {
+				h.sawEmbeddedWindow = true
+				r.Count("histories.reached_embedded_commit_window", 1)
+			}
+			r.Count("embedded_window.opened", 1)
 		}
 		if mm := c17ProofMismatch(preT, pm); len(mm) > 0 {
 			h.violate(c17Sig("cutover-applied-with-stale-proof", kind+":"+mm[0], cross),
@@ -280,7 +289,7 @@ func (h *c17Hist) judgeOne(cmd *c17Cmd, result string, pre, post c17State, scope
 	// ---- rule 3: attempts are counted here; transitions to Aborted are judged
 	// for every mode in judgeAborted.
 	if hasNamed && preOK && cmd.Kind == c17KAbort && preT.Status != metadb.ChannelMigrationStatusAborted &&
-		(c17PostCutover(preT) || h.cutoverDone[cmd.Task] != "") {
+		(c17PostCutover(preT) || h.cutoverDone[cmd.Task] != "" || h.embeddedWindow[cmd.Task]) {
 		r.Count("rule3.abort_attempts_after_cutover", 1)
 		r.Count("rule3.abort_attempts_after_cutover."+result, 1)
 		h.sawAbortAfter = true
@@ -353,6 +362,11 @@ func (h *c17Hist) judgeOne(cmd *c17Cmd, result string, pre, post c17State, scope
 //	aborted-status-written-after-cutover          another command (Advance/Claim carry any status) wrote Aborted
 //	aborted-after-observed-cutover:phase-rewound-by-<cmd>
 //	                                              the row had first been moved back to a pre-cutover phase by <cmd>
+//	…:embedded-commit-window variants of the three: the task is a replica
+//	replacement whose EMBEDDED leader transfer was committed and whose
+//	clear-fence step has not completed yet (row VerifyNewLeader+embedded, or the
+//	monitor saw the embedded commit and no clear-fence since). After the clear
+//	the task is back in AddLearner and may legally be aborted until its promote.
 //
 // (the command that finally wrote Aborted is in the witness; signatures stay
 // few so that the kit's 10 witness slots are never exhausted by one family)
@@ -363,7 +377,18 @@ func (h *c17Hist) judgeAborted(mode c17JudgeMode, cmds []c17Cmd, results []strin
 			continue
 		}
 		byRow := c17PostCutover(p)
-		if !byRow && h.cutoverDone[ref] == "" {
+		embRow := c17EmbeddedWindowRow(p)
+		window := h.embeddedWindow[ref]
+		if window && mode == c17Mixed {
+			// a clear-fence applied in the same batch ends the window before the
+			// later commands of the batch; not attributable without mid-batch state
+			for i := range cmds {
+				if cmds[i].Kind == c17KClearFence && cmds[i].Task == ref && results[i] == "ok" {
+					window, embRow, byRow = false, false, false
+				}
+			}
+		}
+		if !byRow && h.cutoverDone[ref] == "" && !window {
 			continue
 		}
 		// which command did it (exact for single / disjoint batches)
@@ -381,7 +406,22 @@ func (h *c17Hist) judgeAborted(mode c17JudgeMode, cmds []c17Cmd, results []strin
 			cmd = &cmds[len(cmds)-1]
 		}
 		extra := map[string]any{"task_pre": p, "task_post": q, "observed_cutover": h.cutoverDone[ref], "aborted_by": what, "batch": c17BatchDesc(cmds)}
+		extra["embedded_commit_window_open"] = window
 		switch {
+		case embRow && what == "abort":
+			h.violate("abort-applied-after-cutover:embedded-commit-window",
+				h.witness("a replica-replace task whose embedded leader transfer is committed but not yet cleared can not be aborted", cmd, res, pre, post, extra))
+		case embRow:
+			h.violate("aborted-status-written-after-cutover:embedded-commit-window",
+				h.witness("a replica-replace task whose embedded leader transfer is committed but not yet cleared can not be aborted (status rewritten to Aborted)", cmd, res, pre, post, extra))
+		case !byRow && h.cutoverDone[ref] == "":
+			by := h.rewoundBy[ref]
+			if by == "" {
+				by = "unknown"
+			}
+			extra["phase_rewound_by"] = by
+			h.violate("aborted-after-observed-cutover:embedded-commit-window:phase-rewound-by-"+by,
+				h.witness("embedded leader transfer was committed, its clear-fence step never completed, the row was moved away from VerifyNewLeader and then became Aborted", cmd, res, pre, post, extra))
 		case byRow && what == "abort":
 			h.violate(fmt.Sprintf("abort-applied-after-cutover:phase%d", p.Phase),
 				h.witness("a committed/promoted/completed task can no longer be aborted", cmd, res, pre, post, extra))
